@@ -7,6 +7,8 @@ import Mathlib.Data.ZMod.Basic
 import Mathlib.Algebra.Ring.Int.Parity
 import Mathlib.Tactic.Ring
 
+set_option autoImplicit false
+
 namespace SqiProofs.Torsion
 
 /-- the 2^k-torsion of an elliptic curve as an abstract group -/
